@@ -17,8 +17,8 @@ import (
 )
 
 type input struct {
-	Name  string `json:"name"`
-	Kind  string `json:"kind"`
+	Name  string  `json:"name"`
+	Kind  string  `json:"kind"`
 	Bytes []int   `json:"bytes"`
 	Int   int64   `json:"int"`
 	Ints  []int64 `json:"ints"`
@@ -105,6 +105,9 @@ func Assert(name string, c bool) {
 
 // Slow marks code that takes its time (see the engine's intrinsic of the same name).
 func Slow() { time.Sleep(30 * time.Millisecond) }
+
+// SlowFor is Slow with a chosen duration (the engine advances its modelled clock by the same).
+func SlowFor(ms int) { time.Sleep(time.Duration(ms) * time.Millisecond) }
 
 func Cover(name string, c bool) {
 	if c {
